@@ -1714,6 +1714,7 @@ fn gen_install(rng: &mut Rng, info: &FontInfo, prop: &str) -> Option<(FontInfo, 
                     features,
                     frecs,
                     lookups,
+                    default_langsys: rng.pct(50),
                 });
                 let c = if reversed { chars[chars.len() - 1] } else { chars[0] };
                 chars = vec![c];
